@@ -94,7 +94,7 @@ func VerifH_SyncQWakeups() {
 		ts[i] = symx.Go("consumer", func() { got[i] = q.Pop() })
 	}
 	symx.WaitQuiescent()
-	switch symx.Concrete(symx.Int("scenario"), 0, 2) {
+	switch symx.Concrete(symx.Int("scenario"), 0, 4) {
 	case 0:
 		q.Close()
 		symx.WaitQuiescent()
@@ -129,6 +129,66 @@ func VerifH_SyncQWakeups() {
 			}
 		}
 		symx.Assert(n == 1, "the item reaches exactly one consumer")
+	case 3: // a push wakes a parked consumer while another caller takes the item first (TryPop): nil is handed
+		// out only when the queue is closed and drained, so a woken consumer either got the item or keeps
+		// waiting, and further pushes release whoever still waits
+		var stolen interface{}
+		symx.Go("producer", func() { q.Push(1) })
+		symx.Go("thief", func() { stolen, _ = q.TryPop() })
+		symx.WaitQuiescent()
+		n := 0
+		if stolen != nil {
+			symx.Assert(stolen.(int) == 1, "the item pushed")
+			n++
+		}
+		for i := 0; i < k; i++ {
+			if symx.Done(ts[i]) {
+				symx.Assert(got[i] != nil && got[i].(int) == 1, "Pop on an open queue returns an item, never nil")
+				n++
+			}
+		}
+		symx.Assert(n == 1, "the single item is handed out exactly once")
+		for j := 0; j < k; j++ {
+			q.Push(10 + j)
+		}
+		symx.WaitQuiescent()
+		for i := 0; i < k; i++ {
+			symx.MustFinish(ts[i], "further pushes release the consumers that are still waiting")
+			symx.Assert(got[i] != nil, "with an item")
+		}
+	case 4: // one more consumer enters Pop while the pushes (one per consumer) and, in the other variant, the
+		// close happen - nobody has waited for it to park: a push or close that lands anywhere inside Pop
+		// is not missed
+		var late interface{}
+		closing := symx.Bool("closeInsteadOfLastPush")
+		tl := symx.Go("lateConsumer", func() { late = q.Pop() })
+		symx.Go("producer", func() {
+			for j := 0; j < k; j++ {
+				q.Push(20 + j)
+			}
+			if closing {
+				q.Close()
+			} else {
+				q.Push(20 + k)
+			}
+		})
+		symx.WaitQuiescent()
+		n := 0
+		for i := 0; i < k; i++ {
+			symx.MustFinish(ts[i], "every consumer is released by a push or by the close")
+			if got[i] != nil {
+				n++
+			}
+		}
+		symx.MustFinish(tl, "a consumer that entered Pop while the pushes and the close happened is released too")
+		if late != nil {
+			n++
+		}
+		if closing {
+			symx.Assert(n == k, "the pushed items are handed out before the close is reported")
+		} else {
+			symx.Assert(n == k+1, "every consumer gets an item")
+		}
 	}
 	symx.Reach("end")
 }
